@@ -156,8 +156,16 @@ class Body:
             # parameters are identified by position and shown under their frozen names (a
             # parameter rename is not a change of any operand)
             names = fz["names"]
-            live = {p for n, p in self.dbg}
-            self.dbg = [[names.get(p, n), p] if int(p.split("|")[0]) <= self.argc and p in names
+            # parameters and captured variables are matched by position, but only for a *pure
+            # rename*: the live name at that position is unknown to the frozen table and the
+            # frozen name no longer occurs.  (The capture order of closures / async blocks
+            # follows first use, so an edit can permute positions: equal names are never
+            # relabelled.)
+            live_p = {n for n, p in self.dbg if int(p.split("|")[0]) <= self.argc}
+            frozen_p = set(names.values())
+            self.dbg = [[names[p], p] if (int(p.split("|")[0]) <= self.argc and p in names
+                                          and n != names[p] and n not in frozen_p
+                                          and names[p] not in live_p)
                         else [n, p] for n, p in self.dbg]
             # a *pure rename* of a local variable: same number of named locals in the same
             # declaration order, the i-th live name is unknown to the frozen list and the i-th
